@@ -645,6 +645,8 @@ package mqtt
 //@ requires validClOut(cl) && validSrv(s) && s.Options.Capabilities.MaximumQos <= 2 && pk.FixedHeader.Qos <= 2 && sub.Qos <= 2
 //@ requires !has(ifl(cl), 0) && cl.Properties.ProtocolVersion <= 5 && pk.FixedHeader.Type == Publish
 //@ ensures C03-no-local-skips-own-message: sub.NoLocal && pk.Origin == cl.ID ==> r1 == nil && nothingQueued(cl) && tableUntouched(cl)
+// C25: the copy kept for a QoS>0 delivery carries what the expiry housekeeping reads (ClearExpiredInflights: protocol version, creation and expiry time)
+//@ ensures C25-queued-copy-keeps-what-the-expiry-housekeeping-reads: r1 == nil && !(sub.NoLocal && pk.Origin == cl.ID) && r0.FixedHeader.Qos > 0 && has(ifl(cl), r0.PacketID) ==> ifl(cl)[r0.PacketID].ProtocolVersion == pk.ProtocolVersion && ifl(cl)[r0.PacketID].Created == pk.Created && ifl(cl)[r0.PacketID].Expiry == pk.Expiry
 //@ ensures C17-read-permission-checked-on-every-delivery: !(sub.NoLocal && pk.Origin == cl.ID) && !aclOK(cl, pk.TopicName, false) ==> r1 != nil && nothingQueued(cl) && tableUntouched(cl)
 //@ ensures C04-delivered-qos-is-the-minimum: r1 == nil && !(sub.NoLocal && pk.Origin == cl.ID) ==> r0.FixedHeader.Qos == min3(pk.FixedHeader.Qos, sub.Qos, s.Options.Capabilities.MaximumQos)
 //@ ensures C04-retain-flag: r1 == nil && !(sub.NoLocal && pk.Origin == cl.ID) ==> (r0.FixedHeader.Retain <==> (pk.FixedHeader.Retain && (sub.FwdRetainedFlag || (cl.Properties.ProtocolVersion == 5 && sub.RetainAsPublished))))
